@@ -534,6 +534,12 @@ def roundtrip_result(res, case, tgt, tag='result'):
 def check_rdms(case):
     r = core.lib(ob.build_rdms, case['spec'])
     r, _ = ob.rdms_history(r, case['ops'])
+    if case['io']['fmt'] == 'pkl' and r.n_rdm % 2 == 1:
+        # pickle keeps python objects as they are: per-item lists that mix strings and numbers
+        # (HDF5 coerces such lists, so they are used with the pickle format only)
+        mixed = ['a', 1, 2.5, 'b7', 30]
+        r.rdm_descriptors['mixed'] = [mixed[i % len(mixed)] for i in range(r.n_rdm)]
+        r.pattern_descriptors['mixed'] = [mixed[(i + 1) % len(mixed)] for i in range(r.n_cond)]
     tgt = Target(case['io'])
     try:
         roundtrip_rdms(r, tgt)
